@@ -136,6 +136,27 @@ pub fn k1(dir: &str, thorough: bool, seed: u64) {
     for c in CORPUS_STRINGS {
         k1_case(&mut out, c);
     }
+    // the character-class facts the lexer theorems assume (`Lex.CharsOK`), checked against Rust's std for every scalar value
+    {
+        let specials = ['~', '&', '|', '^', '=', '<', '>', '!', '@', '\\', '(', ')', '{', '}', '%', ':', ' '];
+        let letters = ['T', 'r', 'u', 'e', 'F', 'a', 'l', 's', 'X', 'G', 'U', 'W', 'E', 'A', 'i', 'n', 'V', '3', 'x'];
+        let mut ok = true;
+        for u in 0..=0x10FFFFu32 {
+            if let Some(c) = char::from_u32(u) {
+                if c.is_whitespace() && (c.is_alphanumeric() || c == '_') {
+                    ok = false;
+                }
+            }
+        }
+        let ok2 = specials.iter().all(|c| !c.is_alphanumeric() && *c != '_' && (*c == ' ' || !c.is_whitespace())) && ' '.is_whitespace();
+        let ok3 = letters.iter().all(|c| c.is_alphanumeric());
+        for pid in ["C05", "C06"] {
+            out.oracle(ok, pid, "CharsOK.ws_not_name fails for Rust's character classes", "is_whitespace && is_alphanumeric");
+            out.oracle(ok2, pid, "CharsOK.special_* fails for Rust's character classes", "specials");
+            out.oracle(ok3, pid, "CharsOK.letters fails for Rust's character classes", "letters");
+        }
+        out.count("charsok_facts");
+    }
     // exhaustive strings over a small alphabet
     let alphabet: Vec<char> = "aEXUAG3V1_in~&|^=<>!@(){}%: \t\u{a0}é٣$\\".chars().collect();
     let maxlen = if thorough { 4 } else { 3 };
